@@ -256,6 +256,59 @@ func solveAll(obls []*Obligation, scripts []string, valueNames [][]string, dir s
 	return solveAllSkipping(obls, scripts, valueNames, dir, timeoutMs, thorough, nil)
 }
 
+// genMu serialises script generation (the term store and the printers are not thread-safe).
+var genMu sync.Mutex
+
+// tryVariants: sound weakenings of an undecided obligation - the last-index case split (both cases must be unsat, each on
+// the full context or on a slice of it) and the sliced queries. Returns a result only when the obligation is proved.
+func tryVariants(o *Obligation, full string, dir string, timeoutMs int, tried *[]string, ms *int64) *SolverResult {
+	if o.Cover {
+		return nil
+	}
+	genMu.Lock()
+	splits := ObligationScriptsSplit(o)
+	var sliced []string
+	for _, h := range []int{sliceLoop, 1, 2} {
+		if sc := ObligationScriptSliced(o, h); sc != "" && sc != full {
+			sliced = append(sliced, sc)
+		}
+	}
+	genMu.Unlock()
+	if len(splits) == 2 {
+		proved := 0
+		var by []string
+		for c, variants := range splits {
+			ok := false
+			for v, sc := range variants {
+				rs := SolveFast(sc, dir, fmt.Sprintf("%s.split%c%d", o.Name, 'A'+c, v), timeoutMs)
+				*ms += rs.Ms
+				*tried = append(*tried, fmt.Sprintf("split%c%d[%s]", 'A'+c, v, strings.Join(rs.Tried, " ")))
+				if rs.Status == "unsat" {
+					ok = true
+					by = append(by, rs.Solver)
+					break
+				}
+			}
+			if !ok {
+				break
+			}
+			proved++
+		}
+		if proved == 2 {
+			return &SolverResult{Status: "unsat", Solver: strings.Join(by, "+") + "(last-index split)"}
+		}
+	}
+	for h, sc := range sliced {
+		rs := SolveFast(sc, dir, fmt.Sprintf("%s.slice%d", o.Name, h), timeoutMs)
+		*ms += rs.Ms
+		*tried = append(*tried, fmt.Sprintf("slice%d[%s]", h, strings.Join(rs.Tried, " ")))
+		if rs.Status == "unsat" {
+			return &SolverResult{Status: "unsat", Solver: fmt.Sprintf("%s(slice%d)", rs.Solver, h)}
+		}
+	}
+	return nil
+}
+
 func solveAllSkipping(obls []*Obligation, scripts []string, valueNames [][]string, dir string, timeoutMs int, thorough bool, skip map[int]bool) []*oblResult {
 	results := make([]*oblResult, len(obls))
 	// obligations with optional extra assumptions are first tried without them
@@ -273,34 +326,81 @@ func solveAllSkipping(obls []*Obligation, scripts []string, valueNames [][]strin
 			results[i] = &oblResult{O: obls[i], R: &SolverResult{Status: "unsat", Solver: "trivial"}}
 			continue
 		}
-		if skip[i] {
-			results[i] = &oblResult{O: obls[i], R: &SolverResult{Status: "not-run", Solver: "unclaimed"}}
-			continue
-		}
 		wg.Add(1)
 		sem <- struct{}{}
 		go func() {
 			defer wg.Done()
 			defer func() { <-sem }()
-			var r *SolverResult
-			if obls[i].Kind == "vacuity" {
-				r = SolveProbe(scripts[i], dir, obls[i].Name)
-				results[i] = &oblResult{O: obls[i], R: r}
+			o := obls[i]
+			if skip[i] {
+				// listed as not claimed: the quick tier only gives it the short race (it counts as discharged if that
+				// already proves it) and does not spend the long chain on it
+				rf := SolveFast(scripts[i], dir, o.Name+".fast", timeoutMs/3)
+				if rf.Status != "unsat" {
+					rf.Status, rf.Solver = "not-run", "unclaimed"
+				}
+				results[i] = &oblResult{O: o, R: rf}
 				return
 			}
-			if plain[i] != "" {
+			if o.Kind == "vacuity" {
+				results[i] = &oblResult{O: o, R: SolveProbe(scripts[i], dir, o.Name)}
+				return
+			}
+			var tried []string
+			var ms int64
+			finish := func(r *SolverResult) {
+				r.Ms += ms
+				r.Tried = append(tried, r.Tried...)
+				results[i] = &oblResult{O: o, R: r}
+			}
+			if !thorough && !o.Cover {
+				// stage 1: the three solvers race on the query for a short time (most obligations end here)
 				short := timeoutMs / 3
-				r = Solve(plain[i], dir, obls[i].Name+".plain", short, false, nil, true)
+				if plain[i] != "" {
+					rp := SolveFast(plain[i], dir, o.Name+".plain", short)
+					ms += rp.Ms
+					tried = append(tried, rp.Tried...)
+					if rp.Status == "unsat" {
+						finish(&SolverResult{Status: "unsat", Solver: rp.Solver})
+						return
+					}
+				}
+				rf := SolveFast(scripts[i], dir, o.Name+".fast", short)
+				ms += rf.Ms
+				tried = append(tried, rf.Tried...)
+				if rf.Status == "unsat" {
+					finish(&SolverResult{Status: "unsat", Solver: rf.Solver})
+					return
+				}
+				// stage 2: sound weakenings (case split on the last index, slices of the context)
+				if rf.Status != "sat" {
+					if rv := tryVariants(o, scripts[i], dir, timeoutMs/2, &tried, &ms); rv != nil {
+						finish(rv)
+						return
+					}
+				}
+			}
+			// stage 3: the full portfolio chain (last-resort members, model search for a counterexample)
+			var r *SolverResult
+			if thorough && plain[i] != "" {
+				r = Solve(plain[i], dir, o.Name+".plain", timeoutMs/3, false, nil, true)
 				if r.Status != "unsat" {
-					r2 := Solve(scripts[i], dir, obls[i].Name, timeoutMs, thorough, valueNames[i], obls[i].Cover)
+					r2 := Solve(scripts[i], dir, o.Name, timeoutMs, thorough, valueNames[i], o.Cover)
 					r2.Ms += r.Ms
 					r2.Tried = append(r.Tried, r2.Tried...)
 					r = r2
 				}
 			} else {
-				r = Solve(scripts[i], dir, obls[i].Name, timeoutMs, thorough, valueNames[i], obls[i].Cover)
+				r = Solve(scripts[i], dir, o.Name, timeoutMs, thorough, valueNames[i], o.Cover)
 			}
-			results[i] = &oblResult{O: obls[i], R: r}
+			if thorough && !o.Cover && r.Status != "unsat" && r.Status != "sat" {
+				if rv := tryVariants(o, scripts[i], dir, timeoutMs, &tried, &ms); rv != nil {
+					rv.Tried = append(r.Tried, rv.Tried...)
+					rv.Ms += r.Ms
+					r = rv
+				}
+			}
+			finish(r)
 		}()
 	}
 	wg.Wait()
@@ -318,9 +418,17 @@ func solveAllSkipping(obls []*Obligation, scripts []string, valueNames [][]strin
 		go func() {
 			defer wg.Done()
 			defer func() { <-sem2 }()
+			var tried []string
+			var ms int64
+			if rv := tryVariants(obls[i], scripts[i], dir, 2*timeoutMs, &tried, &ms); rv != nil {
+				rv.Ms = r.R.Ms + ms
+				rv.Tried = append(r.R.Tried, tried...)
+				results[i] = &oblResult{O: obls[i], R: rv}
+				return
+			}
 			r2 := Solve(scripts[i], dir, obls[i].Name+".retry", 3*timeoutMs, thorough, valueNames[i], false)
-			r2.Ms += r.R.Ms
-			r2.Tried = append(r.R.Tried, r2.Tried...)
+			r2.Ms += r.R.Ms + ms
+			r2.Tried = append(append(r.R.Tried, tried...), r2.Tried...)
 			results[i] = &oblResult{O: obls[i], R: r2}
 		}()
 	}
